@@ -1,13 +1,1420 @@
 //go:build verif
 
-// placeholder: harness c09 is being written
+// Harness c09: the JWT primitives against the decision model (property C09).
+//
+// A product-space generator builds keysets (MAC: HS256/384/512; signatures: ES*, RS*, PS*, ML-DSA;
+// 1..4 keys; kid strategies TINK / custom / ignored; disabled and destroyed keys; twins sharing key
+// material; primary anywhere), crafts compact tokens from hand-written header/payload JSON signed
+// with the RAW primitive of a chosen key (so every header, payload and structure manipulation can
+// carry a valid signature), and validators over all option combinations with nanosecond clocks on
+// the exp/nbf/iat ± skew boundaries. The model (lean/TinkVerif/Model/Jwt.lean) receives the compact
+// string, this harness's independent encoding/json parse of header and payload, and the per-key
+// raw-signature bits; the implementation's answer is the keyset-level primitive's decision and the
+// key id it reports to monitoring. Go-side oracles: claims of accepted tokens equal the signed
+// payload, SignAndEncode/ComputeMACAndEncode round trip, disabled/foreign keys never verify, JWK
+// export/import round trip, JWK export of private keysets fails.
 package main
 
-import "github.com/tink-crypto/tink-go/v2/internal/verifharness/hlib"
+import (
+	"crypto/rand"
+	"encoding/json"
+	"fmt"
+	"os"
+	"reflect"
+	"runtime/pprof"
+	"sort"
+	"strings"
+	"time"
+
+	"github.com/tink-crypto/tink-go/v2/internal/internalregistry"
+	"github.com/tink-crypto/tink-go/v2/internal/verifharness/hlib"
+	"github.com/tink-crypto/tink-go/v2/jwt"
+	"github.com/tink-crypto/tink-go/v2/jwt/jwtecdsa"
+	"github.com/tink-crypto/tink-go/v2/jwt/jwtrsassapkcs1"
+	"github.com/tink-crypto/tink-go/v2/jwt/jwtrsassapss"
+	"github.com/tink-crypto/tink-go/v2/key"
+	"github.com/tink-crypto/tink-go/v2/keyset"
+	"github.com/tink-crypto/tink-go/v2/monitoring"
+)
+
+// ---------- deterministic crypto/rand ----------
+
+// tape replaces crypto/rand.Reader. One-byte reads (crypto/internal/randutil.MaybeReadByte, issued
+// with probability 1/2 by ecdsa/rsa signing) do not advance the stream, so signatures are a
+// function of the seed.
+type tape struct{ rng *hlib.Rng }
+
+func (t *tape) Read(p []byte) (int, error) {
+	if len(p) == 1 {
+		p[0] = 0x5a
+		return 1, nil
+	}
+	copy(p, t.rng.Bytes(len(p)))
+	return len(p), nil
+}
+
+// ---------- monitoring ----------
+
+type monEvent struct {
+	prim, fn string
+	id       uint32
+}
+
+type monClient struct {
+	logs  []monEvent
+	fails []string
+}
+
+type monLogger struct {
+	c        *monClient
+	prim, fn string
+}
+
+func (l *monLogger) Log(id uint32, _ int)   { l.c.logs = append(l.c.logs, monEvent{l.prim, l.fn, id}) }
+func (l *monLogger) LogFailure()            { l.c.fails = append(l.c.fails, l.prim+"/"+l.fn) }
+func (l *monLogger) LogKeyExport(id uint32) {}
+func (c *monClient) reset()                 { c.logs, c.fails = c.logs[:0], c.fails[:0] }
+func (c *monClient) NewLogger(ctx *monitoring.Context) (monitoring.Logger, error) {
+	return &monLogger{c: c, prim: ctx.Primitive, fn: ctx.APIFunction}, nil
+}
+
+// ---------- validator options ----------
+
+type vopts struct {
+	expTyp, expIss, expAud, expAuds                 *string
+	ignTyp, ignAud, ignIss, allowMissing, expectIat bool
+	skew, now                                       int64
+}
+
+func (v vopts) line() string {
+	return fmt.Sprintf("J opts %s %s %s %s %s %s %s %s %s %d %d", optTok(v.expTyp), optTok(v.expIss), optTok(v.expAud), optTok(v.expAuds),
+		hlib.B01(v.ignTyp), hlib.B01(v.ignAud), hlib.B01(v.ignIss), hlib.B01(v.allowMissing), hlib.B01(v.expectIat), v.skew, v.now)
+}
+
+func cp(s *string) *string {
+	if s == nil {
+		return nil
+	}
+	c := *s
+	return &c
+}
+
+// build calls jwt.NewValidator on a fresh options struct (the constructor mutates its argument).
+func (v vopts) build() (*jwt.Validator, error) {
+	return jwt.NewValidator(&jwt.ValidatorOpts{
+		ExpectedTypeHeader: cp(v.expTyp), ExpectedIssuer: cp(v.expIss), ExpectedAudience: cp(v.expAud), ExpectedAudiences: cp(v.expAuds),
+		IgnoreTypeHeader: v.ignTyp, IgnoreAudiences: v.ignAud, IgnoreIssuer: v.ignIss,
+		AllowMissingExpiration: v.allowMissing, ExpectIssuedInThePast: v.expectIat,
+		ClockSkew: time.Duration(v.skew), FixedNow: time.Unix(0, v.now),
+	})
+}
+
+const (
+	sec       = int64(1000000000)
+	tsMax     = int64(253402300799)
+	maxAnchor = int64(9000000000)
+)
+
+var validSkews = []int64{0, sec, 600 * sec, -sec}
+var skewName = map[int64]string{0: "0", sec: "1s", 600 * sec: "10min", 600*sec + 1: "10min+1ns", -sec: "-1s", 660 * sec: "11min", 3600 * sec: "1h"}
+var deltas = []int64{-sec, -1, 0, 1, sec}
+var deltaName = map[int64]string{-sec: "-1s", -1: "-1ns", 0: "0", 1: "+1ns", sec: "+1s"}
+
+// ---------- analysis of a compact token (independent of how it was made) ----------
+
+type tokInfo struct {
+	compact       string
+	hdr, pl       map[string]any
+	hdrOK, plOK   bool
+	bits          string
+	typ, iss      *string
+	auds          []string
+	hasExp        bool
+	hasNbf        bool
+	hasIat        bool
+	exp, nbf, iat int64
+	// provenance (statistics and the disabled/foreign oracle only)
+	tags   []string
+	signer string // enabled | disabled | foreign | real
+	signM  *mat
+}
+
+func timeFact(m map[string]any, k string) (int64, bool) {
+	n, ok := m[k].(json.Number)
+	if !ok {
+		return 0, false
+	}
+	t, ok := truncSeconds(n)
+	if !ok || t < 0 || t > tsMax {
+		return 0, false
+	}
+	return t, true
+}
+
+func analyse(compact string, enabled []*jkey) *tokInfo {
+	t := &tokInfo{compact: compact}
+	parts := strings.Split(compact, ".")
+	if len(parts) >= 1 {
+		if b, ok := lenientB64(parts[0]); ok {
+			t.hdr, t.hdrOK = parseObject(b)
+		}
+	}
+	if len(parts) >= 2 {
+		if b, ok := lenientB64(parts[1]); ok {
+			t.pl, t.plOK = parseObject(b)
+		}
+	}
+	bits := make([]byte, len(enabled))
+	for i := range bits {
+		bits[i] = '0'
+	}
+	if i := strings.LastIndex(compact, "."); i >= 0 {
+		if sig, ok := lenientB64(compact[i+1:]); ok {
+			for j, k := range enabled {
+				if k.m.verify(sig, []byte(compact[:i])) {
+					bits[j] = '1'
+				}
+			}
+		}
+	}
+	t.bits = string(bits)
+	if t.hdrOK {
+		if s, ok := t.hdr["typ"].(string); ok {
+			t.typ = &s
+		}
+	}
+	if t.plOK {
+		if s, ok := t.pl["iss"].(string); ok {
+			t.iss = &s
+		}
+		switch a := t.pl["aud"].(type) {
+		case string:
+			t.auds = []string{a}
+		case []any:
+			for _, it := range a {
+				if s, ok := it.(string); ok {
+					t.auds = append(t.auds, s)
+				}
+			}
+		}
+		t.exp, t.hasExp = timeFact(t.pl, "exp")
+		t.nbf, t.hasNbf = timeFact(t.pl, "nbf")
+		t.iat, t.hasIat = timeFact(t.pl, "iat")
+	}
+	return t
+}
+
+// ---------- the harness ----------
+
+type H struct {
+	o     *hlib.Out
+	rng   *hlib.Rng
+	pool  *pool
+	mon   *monClient
+	walk  int // position in the validator-option product space
+	t0    int64
+	keys  []*jkey // the current keyset, in keyset order
+	en    []*jkey // its enabled keys, in order
+	isMAC bool
+	mac   jwt.MAC
+	sig   jwt.Signer
+	ver   jwt.Verifier
+}
+
+func (h *H) violate(format string, a ...any) { h.o.Violate(format, a...) }
+
+func statusName(s keyset.KeyStatus) string {
+	switch s {
+	case keyset.Enabled:
+		return "enabled"
+	case keyset.Disabled:
+		return "disabled"
+	case keyset.Destroyed:
+		return "destroyed"
+	}
+	return "unknown"
+}
+
+var customKids = []string{"", "kid-1", "custom", "é", "a.b", "AAAAAA", "https://k.example/1"}
+
+// newKeyset draws a keyset and builds the implementation's primitives.
+func (h *H) newKeyset() {
+	r := h.rng
+	h.isMAC = r.Chance(35)
+	n := r.Pick(1, 1, 1, 2, 2, 2, 3, 3, 4, 4)
+	mainFam := "HS"
+	if !h.isMAC {
+		mainFam = []string{"ES", "ES", "ES", "ES", "ES", "ES", "RS", "PS", "ML", "ML"}[r.Intn(10)]
+	}
+	mixed := !h.isMAC && r.Chance(35)
+	for {
+		h.keys = h.keys[:0]
+		used := map[uint32]bool{}
+		anyEnabled := false
+		for i := 0; i < n; i++ {
+			k := &jkey{strat: r.Intn(3), status: keyset.Enabled}
+			fam := mainFam
+			if mixed && r.Chance(50) {
+				fam = []string{"ES", "ES", "RS", "PS", "ML"}[r.Intn(5)]
+			}
+			ai := r.Intn(3)
+			switch fam { // the big and slow parameter sets less often (P-521 has no assembly; ML-DSA-87 tokens are 6 kB)
+			case "ES":
+				ai = r.Pick(0, 0, 0, 1, 1, 1, 2)
+			case "ML":
+				ai = r.Pick(0, 0, 0, 1, 2)
+			}
+			alg := famAlgs[fam][ai]
+			if i > 0 && r.Chance(25) {
+				k.m = h.keys[r.Intn(i)].m // a twin: same material, other kid configuration
+			} else {
+				k.m = h.pool.newMat(alg)
+			}
+			k.id = r.KeyID()
+			for used[k.id] {
+				k.id = uint32(r.U64())
+			}
+			used[k.id] = true
+			if k.strat == stratCustom {
+				k.custom = customKids[r.Intn(len(customKids))]
+				if r.Chance(20) {
+					k.custom = kidOfID(uint32(r.U64()))
+				}
+				if i > 0 && r.Chance(25) {
+					k.custom = kidOfID(h.keys[r.Intn(i)].id) // collides with another key's derived kid
+				}
+			}
+			switch r.Intn(20) {
+			case 0, 1, 2, 3:
+				k.status = keyset.Disabled
+			case 4:
+				k.status = keyset.Destroyed
+			}
+			if k.status == keyset.Enabled {
+				anyEnabled = true
+			}
+			h.keys = append(h.keys, k)
+		}
+		if anyEnabled {
+			break
+		}
+	}
+	h.en = h.en[:0]
+	for _, k := range h.keys {
+		if k.status == keyset.Enabled {
+			h.en = append(h.en, k)
+		}
+	}
+	h.en[r.Intn(len(h.en))].primary = true
+	for _, k := range h.keys {
+		if err := k.build(); err != nil {
+			panic(fmt.Sprintf("c09: cannot build %s key: %v", k.m.alg, err))
+		}
+	}
+	h.mac, h.sig, h.ver = nil, nil, nil
+	if h.isMAC {
+		kh := must(handleFor(h.keys, false))
+		h.mac = must(jwt.NewMAC(kh))
+	} else {
+		h.sig = must(jwt.NewSigner(must(handleFor(h.keys, false))))
+		h.ver = must(jwt.NewVerifier(must(handleFor(h.keys, true))))
+	}
+	h.o.Count(fmt.Sprintf("keyset/size=%d", len(h.keys)))
+	h.o.Count(fmt.Sprintf("keyset/enabled=%d", len(h.en)))
+	for i, k := range h.keys {
+		h.o.Count("key/" + k.m.alg + "/" + stratName[k.strat])
+		h.o.Count("key/status=" + statusName(k.status))
+		if k.primary {
+			h.o.Count(fmt.Sprintf("keyset/primary-at=%d", i))
+		}
+		for _, p := range h.keys[:i] {
+			if p.m == k.m {
+				h.o.Count("keyset/twin-material")
+				break
+			}
+		}
+	}
+	if mixed {
+		h.o.Count("keyset/mixed-families")
+	}
+}
+
+// emitKeys sends the enabled keys of ks to the model.
+func (h *H) emitKeys(enabled []*jkey) {
+	h.o.Emit("J reset", "ok", false)
+	for _, k := range enabled {
+		h.o.Emit(fmt.Sprintf("J key %d %s %s %s", k.id, tok(k.m.alg), optTok(k.tinkKid()), optTok(k.customKid())), "ok", false)
+	}
+}
+
+// ---------- crafted tokens ----------
+
+var typPool = []string{"JWT", "jwt", "at+jwt", "", "é", "JWS"}
+
+func (h *H) craft() *tokInfo {
+	r := h.rng
+	// who signs
+	var signer *jkey
+	who := "enabled"
+	var disabled []*jkey
+	for _, k := range h.keys {
+		if k.status != keyset.Enabled {
+			disabled = append(disabled, k)
+		}
+	}
+	signer = h.en[r.Intn(len(h.en))]
+	signM := signer.m
+	classes := []int{}
+	switch c := r.Intn(100); {
+	case c < 32:
+	case c < 54:
+		classes = append(classes, 0)
+	case c < 74:
+		classes = append(classes, 1)
+	default:
+		classes = append(classes, 2)
+	}
+	if len(classes) == 1 && r.Chance(15) {
+		classes = append(classes, (classes[0]+1+r.Intn(2))%3)
+	}
+	// manipulated tokens are mostly signed by an enabled key so that the manipulation decides
+	c := r.Intn(100)
+	if len(classes) > 0 {
+		c = r.Intn(400)
+	}
+	switch {
+	case c < 10 && len(disabled) > 0:
+		signer = disabled[r.Intn(len(disabled))]
+		signM = signer.m
+		who = "disabled"
+	case c < 18:
+		// foreign material of the same algorithm; the header is the one an enabled key expects
+		for try := 0; try < 4; try++ {
+			m := h.pool.newMat(signer.m.alg)
+			inSet := false
+			for _, k := range h.keys {
+				if k.m == m {
+					inSet = true
+				}
+			}
+			if !inSet {
+				signM = m
+				who = "foreign"
+				break
+			}
+		}
+	}
+	var typ *string
+	if r.Chance(40) {
+		s := typPool[r.Intn(len(typPool))]
+		typ = &s
+	}
+	hfs := goodHeader(r, signer, typ)
+	pfs, ptags := goodPayload(r, h.t0)
+	var tags []string
+	tags = append(tags, ptags...)
+	var hraw, praw *string
+	skind := ""
+	var manips []string
+	for _, c := range classes {
+		switch c {
+		case 0:
+			kind := headerManips[r.Intn(len(headerManips))]
+			hfs, hraw = manipHeader(r, kind, hfs, signer, h.keys)
+			manips = append(manips, "header/"+kind)
+		case 1:
+			kind := payloadManips[r.Intn(len(payloadManips))]
+			pfs, praw = manipPayload(r, kind, pfs, h.t0)
+			manips = append(manips, "payload/"+kind)
+		case 2:
+			skind = structManips[r.Intn(len(structManips))]
+		}
+	}
+	htext, ptext := "", ""
+	if hraw != nil {
+		htext = *hraw
+	} else {
+		htext = render(r, shuffle(r, hfs))
+	}
+	if praw != nil {
+		ptext = *praw
+	} else {
+		ptext = render(r, pfs)
+	}
+	if skind == "std-header" || skind == "std-payload" {
+		// make sure the url-safe alphabet's '-' / '_' occur in that part
+		filler := field{"pad", "\"~~~???>>>\""}
+		if skind == "std-header" && hraw == nil {
+			htext = render(r, append(hfs, filler))
+		}
+		if skind == "std-payload" && praw == nil {
+			ptext = render(r, append(pfs, filler))
+		}
+	}
+	compact, applied := assemble(r, skind, htext, ptext, func(u string) []byte { return signM.sign([]byte(u)) })
+	if skind != "" {
+		if applied {
+			manips = append(manips, "struct/"+skind)
+		} else {
+			h.o.Count("manip-not-applicable/" + skind)
+		}
+	}
+	t := analyse(compact, h.en)
+	t.signer, t.signM = who, signM
+	if len(manips) == 0 {
+		manips = []string{"none"}
+	}
+	t.tags = append(tags, manips...)
+	for _, m := range manips {
+		h.o.Count("manip/" + m)
+	}
+	for _, g := range ptags {
+		h.o.Count("payload/" + g)
+	}
+	h.o.Count("signer/" + who)
+	h.o.Count("signalg/" + signM.alg)
+	if typ != nil {
+		h.o.Count("typ/present")
+	} else {
+		h.o.Count("typ/absent")
+	}
+	return t
+}
+
+// ---------- validators ----------
+
+func (h *H) pickOther(s *string) *string {
+	for {
+		c := strPool[h.rng.Intn(len(strPool))]
+		if s == nil || c != *s {
+			return &c
+		}
+	}
+}
+
+// directed builds a validator fitted to the token (so that the rule under test decides), with
+// the clock on a boundary of one of the token's instants.
+func (h *H) directed(t *tokInfo) vopts {
+	r := h.rng
+	v := vopts{}
+	if t.typ != nil {
+		if r.Chance(75) {
+			v.expTyp = t.typ
+		} else {
+			v.ignTyp = true
+		}
+	} else if r.Chance(10) {
+		v.ignTyp = true
+	}
+	if t.iss != nil {
+		if r.Chance(75) {
+			v.expIss = t.iss
+		} else {
+			v.ignIss = true
+		}
+	} else if r.Chance(10) {
+		v.ignIss = true
+	}
+	if len(t.auds) > 0 {
+		if r.Chance(75) {
+			a := t.auds[r.Intn(len(t.auds))]
+			if r.Chance(70) {
+				v.expAud = &a
+			} else {
+				v.expAuds = &a
+			}
+		} else {
+			v.ignAud = true
+		}
+	} else if r.Chance(10) {
+		v.ignAud = true
+	}
+	v.allowMissing = (!t.hasExp && r.Chance(80)) || r.Chance(15)
+	v.skew = validSkews[r.Intn(len(validSkews))]
+	var anchors []string
+	// instants whose nanosecond value fits the clock (FixedNow.UnixNano is an int64)
+	if t.hasExp && t.exp < maxAnchor {
+		anchors = append(anchors, "exp", "exp")
+	}
+	if t.hasNbf && t.nbf < maxAnchor {
+		anchors = append(anchors, "nbf")
+	}
+	if t.hasIat && t.iat < maxAnchor {
+		anchors = append(anchors, "iat")
+	}
+	if len(anchors) == 0 {
+		v.now = h.t0*sec + int64(r.Intn(int(sec)))
+		h.o.Count("clock/no-time-claims")
+	} else {
+		a := anchors[r.Intn(len(anchors))]
+		d := deltas[r.Intn(len(deltas))]
+		switch a {
+		case "exp":
+			v.now = t.exp*sec + v.skew + d // accepted iff d < 0
+			v.expectIat = t.hasIat && r.Chance(30)
+		case "nbf":
+			v.now = t.nbf*sec - v.skew + d // accepted iff d >= 0
+			v.expectIat = t.hasIat && t.iat <= t.nbf && r.Chance(50)
+		case "iat":
+			v.now = t.iat*sec - v.skew + d // accepted iff d >= 0
+			v.expectIat = true
+		}
+		h.o.Count(fmt.Sprintf("boundary/%s/skew=%s/delta=%s", a, skewName[v.skew], deltaName[d]))
+	}
+	if v.now == 0 {
+		v.now = 1
+	}
+	return v
+}
+
+var perturbations = []string{"typ-mismatch", "typ-expected-absent", "typ-unexpected", "iss-mismatch", "iss-expected-absent", "iss-unexpected",
+	"aud-mismatch", "aud-expected-absent", "aud-unexpected", "contradict-typ", "contradict-iss", "contradict-aud", "contradict-auds", "both-aud-fields",
+	"skew-too-large", "missing-exp-not-allowed", "expect-iat", "allow-missing"}
+
+func (h *H) perturb(v vopts, t *tokInfo) vopts {
+	r := h.rng
+	kind := perturbations[r.Intn(len(perturbations))]
+	h.o.Count("perturb/" + kind)
+	switch kind {
+	case "typ-mismatch":
+		v.expTyp, v.ignTyp = h.pickOther(t.typ), false
+	case "typ-expected-absent":
+		if t.typ == nil {
+			v.expTyp, v.ignTyp = h.pickOther(nil), false
+		}
+	case "typ-unexpected":
+		v.expTyp, v.ignTyp = nil, false
+	case "iss-mismatch":
+		v.expIss, v.ignIss = h.pickOther(t.iss), false
+	case "iss-expected-absent":
+		if t.iss == nil {
+			v.expIss, v.ignIss = h.pickOther(nil), false
+		}
+	case "iss-unexpected":
+		v.expIss, v.ignIss = nil, false
+	case "aud-mismatch":
+		var c *string
+		for {
+			c = h.pickOther(nil)
+			found := false
+			for _, a := range t.auds {
+				if a == *c {
+					found = true
+				}
+			}
+			if !found {
+				break
+			}
+		}
+		v.expAud, v.expAuds, v.ignAud = c, nil, false
+	case "aud-expected-absent":
+		if len(t.auds) == 0 {
+			v.expAud, v.expAuds, v.ignAud = h.pickOther(nil), nil, false
+		}
+	case "aud-unexpected":
+		v.expAud, v.expAuds, v.ignAud = nil, nil, false
+	case "contradict-typ":
+		v.expTyp, v.ignTyp = h.pickOther(nil), true
+	case "contradict-iss":
+		v.expIss, v.ignIss = h.pickOther(nil), true
+	case "contradict-aud":
+		v.expAud, v.expAuds, v.ignAud = h.pickOther(nil), nil, true
+	case "contradict-auds":
+		v.expAud, v.expAuds, v.ignAud = nil, h.pickOther(nil), true
+	case "both-aud-fields":
+		a := h.pickOther(nil)
+		if len(t.auds) > 0 {
+			a = &t.auds[0]
+		}
+		v.expAud, v.expAuds, v.ignAud = a, a, false
+	case "skew-too-large":
+		v.skew = []int64{600*sec + 1, 660 * sec, 3600 * sec}[r.Intn(3)]
+	case "missing-exp-not-allowed":
+		v.allowMissing = false
+	case "expect-iat":
+		v.expectIat = true
+	case "allow-missing":
+		v.allowMissing = true
+	}
+	return v
+}
+
+// product walks the full option product space (1440 combinations) with a stride, clock on a grid
+// of seconds around the case's instants.
+func (h *H) product(t *tokInfo) vopts {
+	r := h.rng
+	h.walk = (h.walk + 577) % 1440
+	x := h.walk
+	take := func(n int) int { d := x % n; x /= n; return d }
+	v := vopts{}
+	match := func(s *string) *string {
+		if s != nil {
+			return s
+		}
+		c := "JWT"
+		return &c
+	}
+	switch take(3) {
+	case 1:
+		v.expTyp = match(t.typ)
+	case 2:
+		v.expTyp = h.pickOther(t.typ)
+	}
+	v.ignTyp = take(2) == 1
+	switch take(3) {
+	case 1:
+		v.expIss = match(t.iss)
+	case 2:
+		v.expIss = h.pickOther(t.iss)
+	}
+	v.ignIss = take(2) == 1
+	var aud *string
+	if len(t.auds) > 0 {
+		aud = &t.auds[r.Intn(len(t.auds))]
+	}
+	switch take(5) {
+	case 1:
+		v.expAud = match(aud)
+	case 2:
+		v.expAuds = match(aud)
+	case 3:
+		v.expAud, v.expAuds = match(aud), match(aud)
+	case 4:
+		v.expAud = h.pickOther(aud)
+	}
+	v.ignAud = take(2) == 1
+	v.allowMissing = take(2) == 1
+	v.expectIat = take(2) == 1
+	v.skew = []int64{0, sec, 600 * sec, -sec, 0, sec, 600 * sec, -sec, 600*sec + 1, 660 * sec}[r.Intn(10)]
+	base := h.t0
+	if t.hasExp && t.exp < maxAnchor && r.Chance(30) {
+		base = t.exp
+	}
+	v.now = (base+int64(r.Pick(-7200, -3600, -601, -600, -1, 0, 0, 1, 600, 601, 3599, 3600, 3601, 7200)))*sec + int64(r.Pick(0, 0, 1, -1, 999999999, 500000000))
+	if v.now == 0 {
+		v.now = 1
+	}
+	h.o.Count("opts/product-walk")
+	return v
+}
+
+// repair removes what makes NewValidator fail, keeping the rest of the combination.
+func (h *H) repair(v vopts) vopts {
+	r := h.rng
+	if v.expAud != nil && v.expAuds != nil {
+		if r.Bool() {
+			v.expAud = nil
+		} else {
+			v.expAuds = nil
+		}
+	}
+	drop := func(exp **string, ign *bool) {
+		if *exp != nil && *ign {
+			if r.Bool() {
+				*exp = nil
+			} else {
+				*ign = false
+			}
+		}
+	}
+	drop(&v.expTyp, &v.ignTyp)
+	drop(&v.expIss, &v.ignIss)
+	drop(&v.expAud, &v.ignAud)
+	drop(&v.expAuds, &v.ignAud)
+	if v.skew > 600*sec {
+		v.skew = validSkews[r.Intn(len(validSkews))]
+	}
+	return v
+}
+
+// ---------- running one (token, validator) pair ----------
+
+type prims struct {
+	mac     jwt.MAC
+	ver     jwt.Verifier
+	enabled []*jkey
+}
+
+func (h *H) cur() prims { return prims{mac: h.mac, ver: h.ver, enabled: h.en} }
+
+func verifyLine(t *tokInfo) string {
+	return fmt.Sprintf("J verify %s %s %s %s", tok(t.compact), encObj(t.hdr, t.hdrOK), encObj(t.pl, t.plOK), t.bits)
+}
+
+// verify runs the implementation on (token, validator), emits the lines, applies the oracles, and
+// returns the implementation's answer.
+func (h *H) verify(p prims, t *tokInfo, v vopts, label string) string {
+	val, err := v.build()
+	if err != nil {
+		h.o.Emit(v.line(), "err", true)
+		h.o.Count("opts/invalid")
+		return "noval"
+	}
+	h.o.Emit(v.line(), "ok", false)
+	h.o.Count("opts/valid")
+	h.o.Count("opts/skew=" + skewName[v.skew])
+	var vj *jwt.VerifiedJWT
+	h.mon.reset()
+	pan := hlib.Recover(func() {
+		if p.mac != nil {
+			vj, err = p.mac.VerifyMACAndDecode(t.compact, val)
+		} else {
+			vj, err = p.ver.VerifyAndDecode(t.compact, val)
+		}
+	})
+	res := ""
+	switch {
+	case pan != "":
+		h.violate("verification panicked (%s): token=%q opts=%s", pan, t.compact, v.line())
+		res = "panic"
+	case err == nil:
+		res = "accept ?"
+		if len(h.mon.logs) == 1 && len(h.mon.fails) == 0 {
+			res = fmt.Sprintf("accept %d", h.mon.logs[0].id)
+			if fn := h.mon.logs[0].fn; fn != "verify" {
+				h.violate("verification success was logged as %q", fn)
+			}
+		} else {
+			h.violate("accepted token but monitoring saw %d log events and %d failures: token=%q", len(h.mon.logs), len(h.mon.fails), t.compact)
+		}
+		if vj == nil {
+			h.violate("nil VerifiedJWT without error: token=%q", t.compact)
+		} else {
+			h.checkClaims(vj, t)
+		}
+	default:
+		if vj != nil {
+			h.violate("a VerifiedJWT was returned together with error %v", err)
+		}
+		if len(h.mon.logs) != 0 || len(h.mon.fails) != 1 {
+			h.violate("rejected token but monitoring saw %d log events and %d failures: token=%q", len(h.mon.logs), len(h.mon.fails), t.compact)
+		}
+		if jwt.VerifIsVerificationErr(err) {
+			res = "verr"
+		} else {
+			res = "valerr"
+			if jwt.IsExpirationErr(err) {
+				h.o.Count("valerr/expired")
+				if !t.hasExp || t.exp >= maxAnchor || t.exp*sec > v.now-v.skew {
+					h.violate("IsExpirationErr on a token that is not expired: token=%q opts=%s", t.compact, v.line())
+				}
+			}
+		}
+	}
+	h.o.Emit(verifyLine(t), res, true)
+	out := strings.Fields(res)[0]
+	h.o.Count("outcome/" + out)
+	h.o.Count("outcome/" + label + "/" + out)
+	for _, g := range t.tags {
+		if strings.Contains(g, "/") {
+			h.o.Count("outcome-by-manip/" + g + "/" + out)
+		}
+	}
+	if len(t.tags) > 0 && t.tags[len(t.tags)-1] == "none" {
+		h.o.Count("outcome-by-manip/none/" + out)
+	}
+	// property oracles that need no model
+	if out == "accept" {
+		okKey := false
+		var id uint32
+		fmt.Sscanf(res, "accept %d", &id)
+		for i, k := range p.enabled {
+			if k.id == id && t.bits[i] == '1' {
+				okKey = true
+			}
+		}
+		if !okKey && res != "accept ?" {
+			h.violate("accepted under key id %d which is not an enabled key with a valid signature (bits %s): token=%q", id, t.bits, t.compact)
+		}
+		if t.signer == "disabled" || t.signer == "foreign" {
+			shared := false
+			for _, k := range p.enabled {
+				if k.m == t.signM {
+					shared = true
+				}
+			}
+			if !shared {
+				h.violate("token signed by a %s key was accepted: token=%q", t.signer, t.compact)
+			}
+		}
+	}
+	if !strings.Contains(t.bits, "1") && out != "verr" && out != "panic" {
+		h.violate("no enabled key's signature check passes, yet the answer is %q (want the generic verification error): token=%q", res, t.compact)
+	}
+	return res
+}
+
+// productStep takes the next combination of the option product space; a combination the
+// constructor refuses is sent as such (both sides must refuse) and then repaired for the verify.
+func (h *H) productStep(p prims, t *tokInfo, label string) {
+	v := h.product(t)
+	if h.verify(p, t, v, label) == "noval" {
+		h.verify(p, t, h.repair(v), label)
+	}
+}
+
+func eqStrs(a, b []string) bool {
+	if len(a) != len(b) {
+		return false
+	}
+	for i := range a {
+		if a[i] != b[i] {
+			return false
+		}
+	}
+	return true
+}
+
+func isRegistered(k string) bool {
+	switch k {
+	case "iss", "sub", "aud", "jti", "exp", "nbf", "iat":
+		return true
+	}
+	return false
+}
+
+// checkClaims: the VerifiedJWT must present exactly the signed payload (and typ header).
+func (h *H) checkClaims(vj *jwt.VerifiedJWT, t *tokInfo) {
+	bad := func(format string, a ...any) {
+		h.violate("claims of accepted token differ from the signed payload: "+format+" token=%q", append(a, t.compact)...)
+	}
+	if !t.hdrOK || !t.plOK {
+		bad("header/payload are not JSON objects for the independent parser")
+		return
+	}
+	pan := hlib.Recover(func() {
+		// typ
+		if vj.HasTypeHeader() != (t.typ != nil) {
+			bad("HasTypeHeader=%v", vj.HasTypeHeader())
+		} else if t.typ != nil {
+			if s, err := vj.TypeHeader(); err != nil || s != *t.typ {
+				bad("TypeHeader=%q,%v want %q", s, err, *t.typ)
+			}
+		}
+		// string claims
+		for _, c := range []struct {
+			name string
+			has  func() bool
+			get  func() (string, error)
+		}{{"iss", vj.HasIssuer, vj.Issuer}, {"sub", vj.HasSubject, vj.Subject}, {"jti", vj.HasJWTID, vj.JWTID}} {
+			want, present := t.pl[c.name]
+			if c.has() != present {
+				bad("Has(%s)=%v want %v", c.name, c.has(), present)
+				continue
+			}
+			if present {
+				got, err := c.get()
+				if ws, ok := want.(string); !ok || err != nil || got != ws {
+					bad("%s=%q,%v want %v", c.name, got, err, want)
+				}
+			} else if _, err := c.get(); err == nil {
+				bad("%s accessor succeeds on an absent claim", c.name)
+			}
+		}
+		// audiences
+		_, present := t.pl["aud"]
+		if vj.HasAudiences() != present {
+			bad("HasAudiences=%v want %v", vj.HasAudiences(), present)
+		} else if present {
+			got, err := vj.Audiences()
+			if err != nil || !eqStrs(got, t.auds) {
+				bad("Audiences=%q,%v want %q", got, err, t.auds)
+			}
+		}
+		// time claims
+		for _, c := range []struct {
+			name string
+			has  func() bool
+			get  func() (time.Time, error)
+		}{{"exp", vj.HasExpiration, vj.ExpiresAt}, {"nbf", vj.HasNotBefore, vj.NotBefore}, {"iat", vj.HasIssuedAt, vj.IssuedAt}} {
+			_, present := t.pl[c.name]
+			if c.has() != present {
+				bad("Has(%s)=%v want %v", c.name, c.has(), present)
+				continue
+			}
+			if present {
+				want, ok := timeFact(t.pl, c.name)
+				got, err := c.get()
+				if !ok || err != nil || !got.Equal(time.Unix(want, 0)) {
+					bad("%s=%v,%v want %d (valid=%v)", c.name, got, err, want, ok)
+				}
+			}
+		}
+		// custom claims
+		var wantNames []string
+		for _, k := range sortedKeys(t.pl) {
+			if !isRegistered(k) {
+				wantNames = append(wantNames, k)
+			}
+		}
+		gotNames := append([]string(nil), vj.CustomClaimNames()...)
+		sort.Strings(gotNames)
+		if !eqStrs(gotNames, wantNames) {
+			bad("CustomClaimNames=%q want %q", gotNames, wantNames)
+		}
+		for _, k := range wantNames {
+			want := canon(t.pl[k])
+			kinds := map[string]bool{"string": vj.HasStringClaim(k), "number": vj.HasNumberClaim(k), "bool": vj.HasBooleanClaim(k),
+				"null": vj.HasNullClaim(k), "array": vj.HasArrayClaim(k), "object": vj.HasObjectClaim(k)}
+			wantKind := ""
+			switch w := want.(type) {
+			case string:
+				wantKind = "string"
+				if got, err := vj.StringClaim(k); err != nil || got != w {
+					bad("StringClaim(%q)=%q,%v want %q", k, got, err, w)
+				}
+			case float64:
+				wantKind = "number"
+				if got, err := vj.NumberClaim(k); err != nil || got != w {
+					bad("NumberClaim(%q)=%v,%v want %v", k, got, err, w)
+				}
+			case bool:
+				wantKind = "bool"
+				if got, err := vj.BooleanClaim(k); err != nil || got != w {
+					bad("BooleanClaim(%q)=%v,%v want %v", k, got, err, w)
+				}
+			case nil:
+				wantKind = "null"
+			case []any:
+				wantKind = "array"
+				if got, err := vj.ArrayClaim(k); err != nil || !reflect.DeepEqual(canon(anySlice(got)), want) {
+					bad("ArrayClaim(%q)=%v,%v want %v", k, got, err, w)
+				}
+			case map[string]any:
+				wantKind = "object"
+				if got, err := vj.ObjectClaim(k); err != nil || !reflect.DeepEqual(normMap(got), want) {
+					bad("ObjectClaim(%q)=%v,%v want %v", k, got, err, w)
+				}
+			}
+			for _, kind := range []string{"string", "number", "bool", "null", "array", "object"} {
+				if has := kinds[kind]; has != (kind == wantKind) {
+					bad("Has<%s>Claim(%q)=%v but the claim is a %s", kind, k, has, wantKind)
+				}
+			}
+			h.o.Count("accepted-claim/" + wantKind)
+		}
+		// the payload as a whole
+		js, err := vj.JSONPayload()
+		if err != nil {
+			bad("JSONPayload error %v", err)
+		} else if m, ok := parseObject(js); !ok || !reflect.DeepEqual(canon(m), canon(t.pl)) {
+			bad("JSONPayload=%s", js)
+		}
+	})
+	if pan != "" {
+		h.violate("VerifiedJWT accessor panicked (%s): token=%q", pan, t.compact)
+	}
+	h.o.Count("oracle/claims-compared")
+}
+
+func optShow(s *string) string {
+	if s == nil {
+		return "<none>"
+	}
+	return fmt.Sprintf("%q", *s)
+}
+
+func anySlice(s []any) any {
+	if s == nil {
+		return []any{}
+	}
+	return s
+}
+
+func normMap(m map[string]any) any {
+	if m == nil {
+		return map[string]any{}
+	}
+	return m
+}
+
+// ---------- tokens made by the real signer ----------
+
+type realTok struct {
+	t      *tokInfo
+	accept vopts // a validator that must accept it
+}
+
+func (h *H) realToken() *realTok {
+	r := h.rng
+	opts := &jwt.RawJWTOptions{}
+	want := map[string]any{}
+	sp := func(name string, dst **string) {
+		if r.Chance(50) {
+			s := pickStr(r)
+			*dst = &s
+			want[name] = s
+		}
+	}
+	sp("iss", &opts.Issuer)
+	sp("sub", &opts.Subject)
+	sp("jti", &opts.JWTID)
+	switch r.Intn(4) {
+	case 0:
+		s := pickStr(r)
+		opts.Audience = &s
+		want["aud"] = s
+	case 1:
+		n := 1 + r.Intn(3)
+		l := []any{}
+		for i := 0; i < n; i++ {
+			s := pickStr(r)
+			opts.Audiences = append(opts.Audiences, s)
+			l = append(l, s)
+		}
+		want["aud"] = l
+	}
+	tm := func(name string, secs int64, dst **time.Time) {
+		t := time.Unix(secs, int64(r.Pick(0, 0, 1, 999999999)))
+		*dst = &t
+		want[name] = float64(secs)
+	}
+	if r.Chance(80) {
+		tm("exp", h.t0+int64(r.Pick(3600, 7200, 1)), &opts.ExpiresAt)
+	} else {
+		opts.WithoutExpiration = true
+	}
+	if r.Chance(50) {
+		tm("nbf", h.t0-int64(r.Pick(0, 1, 3600)), &opts.NotBefore)
+	}
+	if r.Chance(50) {
+		tm("iat", h.t0-int64(r.Pick(0, 1, 3600)), &opts.IssuedAt)
+	}
+	if r.Chance(50) {
+		s := typPool[r.Intn(len(typPool))]
+		opts.TypeHeader = &s
+	}
+	if r.Chance(60) {
+		opts.CustomClaims = map[string]any{}
+		for i, n := 0, 1+r.Intn(3); i < n; i++ {
+			name := customNames[r.Intn(len(customNames))]
+			var v any
+			switch r.Intn(7) {
+			case 0:
+				v = pickStr(r)
+			case 1:
+				v = []float64{0, 1, -1, 0.5, 12.5, 1e30, 9007199254740991}[r.Intn(7)]
+			case 2:
+				v = r.Bool()
+			case 3:
+				v = nil
+			case 4:
+				v = []any{pickStr(r), float64(r.Intn(100)), nil, true}
+			case 5:
+				v = map[string]any{"k": pickStr(r), "n": float64(r.Intn(100)), "l": []any{}, "o": map[string]any{}}
+			case 6:
+				v = []any{}
+			}
+			opts.CustomClaims[name] = v
+			want[name] = v
+		}
+	}
+	var raw *jwt.RawJWT
+	var err error
+	var compact string
+	h.mon.reset()
+	pan := hlib.Recover(func() {
+		raw, err = jwt.NewRawJWT(opts)
+		if err != nil {
+			return
+		}
+		if h.isMAC {
+			compact, err = h.mac.ComputeMACAndEncode(raw)
+		} else {
+			compact, err = h.sig.SignAndEncode(raw)
+		}
+	})
+	if pan != "" || err != nil {
+		h.violate("cannot build and sign a valid raw JWT: panic=%q err=%v opts=%+v", pan, err, want)
+		return nil
+	}
+	var primary *jkey
+	for _, k := range h.en {
+		if k.primary {
+			primary = k
+		}
+	}
+	if len(h.mon.logs) != 1 || len(h.mon.fails) != 0 || h.mon.logs[0].id != primary.id {
+		h.violate("signing with primary %d logged %v / failures %v", primary.id, h.mon.logs, h.mon.fails)
+	}
+	t := analyse(compact, h.en)
+	t.signer, t.signM = "real", primary.m
+	t.tags = []string{"real-signed"}
+	// header: alg = the primary's algorithm, kid per strategy, typ as given; nothing else
+	wantHdr := map[string]any{"alg": primary.m.alg}
+	if kid := primary.headerKid(); kid != nil {
+		wantHdr["kid"] = *kid
+	}
+	if opts.TypeHeader != nil {
+		wantHdr["typ"] = *opts.TypeHeader
+	}
+	if !t.hdrOK || !reflect.DeepEqual(canon(t.hdr), any(wantHdr)) {
+		h.violate("header of a token made by the %s primary (kid strategy %s) is %v, want %v: token=%q", primary.m.alg, stratName[primary.strat], t.hdr, wantHdr, compact)
+	}
+	if !t.plOK || !reflect.DeepEqual(canon(t.pl), canon(want)) {
+		h.violate("payload of the produced token is %v, want %v: token=%q", t.pl, want, compact)
+	}
+	for i, k := range h.en {
+		if (t.bits[i] == '1') != (k.m == primary.m) {
+			h.violate("raw signature of the produced token: bit %c for key %d (primary material: %v): token=%q", t.bits[i], k.id, k.m == primary.m, compact)
+		}
+	}
+	if strings.ContainsAny(compact, "=+/ \n") || strings.Count(compact, ".") != 2 {
+		h.violate("produced token is not an unpadded base64url compact serialization: %q", compact)
+	}
+	// a validator that must accept
+	v := vopts{expTyp: opts.TypeHeader, expIss: opts.Issuer, allowMissing: opts.WithoutExpiration, skew: 0}
+	if len(t.auds) > 0 {
+		v.expAud = &t.auds[r.Intn(len(t.auds))]
+	}
+	v.expectIat = opts.IssuedAt != nil && r.Bool()
+	v.now = h.t0*sec + int64(r.Pick(0, 1, 999999999))
+	h.o.Count("real/signed-" + primary.m.alg + "/" + stratName[primary.strat])
+	return &realTok{t: t, accept: v}
+}
+
+// ---------- JWK ----------
+
+func (h *H) jwkPhase(reals []*realTok, crafted []*tokInfo) {
+	pubH := must(handleFor(h.keys, true))
+	privH := must(handleFor(h.keys, false))
+	// export refuses private keys
+	var err error
+	var out []byte
+	if pan := hlib.Recover(func() { out, err = jwt.JWKSetFromPublicKeysetHandle(privH) }); pan != "" {
+		h.violate("JWK export of a private keyset panicked: %s", pan)
+	} else if err == nil {
+		h.violate("JWK export of a PRIVATE keyset succeeded: %s", out)
+	}
+	h.o.Count("jwk/private-export-refused")
+	hasML := false
+	for _, k := range h.en {
+		if famOf(k.m.alg) == "ML" {
+			hasML = true
+		}
+	}
+	var set []byte
+	pan := hlib.Recover(func() { set, err = jwt.JWKSetFromPublicKeysetHandle(pubH) })
+	if pan != "" {
+		h.violate("JWK export panicked: %s", pan)
+		return
+	}
+	if hasML {
+		// ML-DSA has no JWK mapping in this library: the export is documented to support ES/RS/PS only
+		if err == nil {
+			h.o.Count("jwk/mldsa-exported")
+		} else {
+			h.o.Count("jwk/mldsa-unsupported")
+		}
+		return
+	}
+	if err != nil {
+		h.violate("JWK export of a public ES/RS/PS keyset failed: %v", err)
+		return
+	}
+	// no private parameters in the export
+	if m, ok := parseObject(set); !ok {
+		h.violate("JWK set is not a JSON object: %s", set)
+	} else if l, ok := m["keys"].([]any); !ok || len(l) != len(h.en) {
+		h.violate("JWK set has %v keys, want the %d enabled ones: %s", m["keys"], len(h.en), set)
+	} else {
+		for _, e := range l {
+			em, _ := e.(map[string]any)
+			for _, f := range []string{"d", "p", "q", "dp", "dq", "qi", "k"} {
+				if _, bad := em[f]; bad {
+					h.violate("JWK export contains private parameter %q: %s", f, set)
+				}
+			}
+		}
+	}
+	var h2 *keyset.Handle
+	if pan := hlib.Recover(func() { h2, err = jwt.JWKSetToPublicKeysetHandle(set) }); pan != "" || err != nil {
+		h.violate("JWK set exported by the library cannot be imported back: panic=%q err=%v set=%s", pan, err, set)
+		return
+	}
+	if h2.Len() != len(h.en) {
+		h.violate("imported JWK keyset has %d keys, want %d", h2.Len(), len(h.en))
+		return
+	}
+	// the imported keyset, described independently: same material and algorithm; TINK keys become
+	// custom-kid keys carrying the derived kid
+	var imp []*jkey
+	for i, k := range h.en {
+		e, err := h2.Entry(i)
+		if err != nil {
+			h.violate("imported keyset entry %d: %v", i, err)
+			return
+		}
+		nk := &jkey{m: k.m, id: e.KeyID(), status: keyset.Enabled, primary: e.IsPrimary(), pub: e.Key()}
+		if kid := k.headerKid(); kid != nil {
+			nk.strat, nk.custom = stratCustom, *kid
+		} else {
+			nk.strat = stratIgnored
+		}
+		if e.KeyStatus() != keyset.Enabled {
+			h.violate("imported JWK key %d is not enabled", i)
+		}
+		gotAlg, gotKid, gotHas, gotStrat, sameMat := describePublic(e.Key(), k)
+		wantStrat := "CustomKID"
+		if nk.strat == stratIgnored {
+			wantStrat = "IgnoredKID"
+		}
+		if gotAlg != k.m.alg || gotHas != (nk.strat == stratCustom) || gotKid != nk.custom || gotStrat != wantStrat || !sameMat {
+			h.violate("JWK round trip changed key %d: alg %s→%s kid %s→(%q,%v) strategy→%s same-material=%v", k.id, k.m.alg, gotAlg, optShow(k.headerKid()), gotKid, gotHas, gotStrat, sameMat)
+		}
+		imp = append(imp, nk)
+	}
+	ver2, err := jwt.NewVerifier(must(handleFor(imp, true)))
+	if err != nil {
+		h.violate("no verifier from the imported JWK keyset: %v", err)
+		return
+	}
+	h.o.Count("jwk/round-trips")
+	p := prims{ver: ver2, enabled: imp}
+	h.emitKeys(imp)
+	for _, rt := range reals {
+		t2 := analyse(rt.t.compact, imp)
+		t2.signer, t2.signM, t2.tags = rt.t.signer, rt.t.signM, []string{"jwk/real-signed"}
+		if res := h.verify(p, t2, rt.accept, "jwk-real"); !strings.HasPrefix(res, "accept") {
+			h.violate("public keyset → JWK set → keyset does not verify a token of the private keyset: %s token=%q opts=%s", res, rt.t.compact, rt.accept.line())
+		}
+		h.verify(p, t2, h.directed(t2), "jwk-real")
+	}
+	for _, t := range crafted {
+		t2 := analyse(t.compact, imp)
+		t2.signer, t2.signM, t2.tags = t.signer, t.signM, []string{"jwk/crafted"}
+		h.verify(p, t2, h.directed(t2), "jwk-crafted")
+	}
+}
+
+// describePublic reads algorithm, kid and material of an imported public key.
+func describePublic(k key.Key, orig *jkey) (alg, kid string, hasKid bool, strat string, sameMat bool) {
+	switch pk := k.(type) {
+	case *jwtecdsa.PublicKey:
+		ps := pk.Parameters().(*jwtecdsa.Parameters)
+		kid, hasKid = pk.KID()
+		return ps.Algorithm().String(), kid, hasKid, ps.KIDStrategy().String(), string(pk.PublicPoint()) == string(orig.m.ecPub)
+	case *jwtrsassapkcs1.PublicKey:
+		ps := pk.Parameters().(*jwtrsassapkcs1.Parameters)
+		kid, hasKid = pk.KID()
+		return ps.Algorithm().String(), kid, hasKid, ps.KIDStrategy().String(), orig.m.rsa != nil && string(pk.Modulus()) == string(orig.m.rsa.n) && ps.PublicExponent() == 65537
+	case *jwtrsassapss.PublicKey:
+		ps := pk.Parameters().(*jwtrsassapss.Parameters)
+		kid, hasKid = pk.KID()
+		return ps.Algorithm().String(), kid, hasKid, ps.KIDStrategy().String(), orig.m.rsa != nil && string(pk.Modulus()) == string(orig.m.rsa.n) && ps.PublicExponent() == 65537
+	}
+	return fmt.Sprintf("%T", k), "", false, "", false
+}
+
+// ---------- split ----------
+
+func (h *H) splitLine(compact string) {
+	var sig []byte
+	var unsigned string
+	var ok bool
+	if pan := hlib.Recover(func() { sig, unsigned, ok = jwt.VerifSplitSignedCompact(compact) }); pan != "" {
+		h.violate("splitSignedCompact panicked (%s) on %q", pan, compact)
+		return
+	}
+	res := "err"
+	if ok {
+		res = fmt.Sprintf("ok %d %d", len(unsigned), len(compact)-len(unsigned)-1)
+		if want, dec := lenientB64(compact[len(unsigned)+1:]); !dec || string(want) != string(sig) || !strings.HasPrefix(compact, unsigned+".") {
+			h.violate("splitSignedCompact(%q) returned signature %x / unsigned %q", compact, sig, unsigned)
+		}
+	}
+	h.o.Emit("J split "+tok(compact), res, true)
+	h.o.Count("split/" + strings.Fields(res)[0])
+}
+
+// ---------- one case ----------
+
+func (h *H) runCase() {
+	r := h.rng
+	h.o.Case()
+	h.t0 = int64(r.Pick(1000000, 1700000000, 1700000000, 1700000000, 4000000000, 946684800)) + int64(r.Intn(100000))*10
+	h.newKeyset()
+	h.emitKeys(h.en)
+	nTok := 9
+	var crafted []*tokInfo
+	for i := 0; i < nTok; i++ {
+		t := h.craft()
+		crafted = append(crafted, t)
+		h.splitLine(t.compact)
+		clean := len(t.tags) > 0 && t.tags[len(t.tags)-1] == "none"
+		label := "manipulated"
+		if clean {
+			label = "clean"
+			if t.signer != "enabled" {
+				label = "clean-" + t.signer
+			}
+		}
+		h.verify(h.cur(), t, h.directed(t), label)
+		if clean {
+			h.verify(h.cur(), t, h.directed(t), label)
+			h.verify(h.cur(), t, h.perturb(h.directed(t), t), label)
+			h.verify(h.cur(), t, h.perturb(h.directed(t), t), label)
+			h.productStep(h.cur(), t, label)
+			h.productStep(h.cur(), t, label)
+		} else {
+			switch r.Intn(3) {
+			case 0:
+				h.verify(h.cur(), t, h.directed(t), label)
+			case 1:
+				h.verify(h.cur(), t, h.perturb(h.directed(t), t), label)
+			case 2:
+				h.productStep(h.cur(), t, label)
+			}
+		}
+	}
+	var reals []*realTok
+	for i := 0; i < 2; i++ {
+		rt := h.realToken()
+		if rt == nil {
+			continue
+		}
+		reals = append(reals, rt)
+		h.splitLine(rt.t.compact)
+		if res := h.verify(h.cur(), rt.t, rt.accept, "real"); !strings.HasPrefix(res, "accept") {
+			h.violate("a token made by the keyset's own primary is not accepted by the matching validator: %s token=%q opts=%s", res, rt.t.compact, rt.accept.line())
+		}
+		h.verify(h.cur(), rt.t, h.directed(rt.t), "real")
+		h.verify(h.cur(), rt.t, h.perturb(h.directed(rt.t), rt.t), "real")
+		h.productStep(h.cur(), rt.t, "real")
+	}
+	if h.isMAC {
+		// JWK export has nothing to do with MAC keys: it must refuse them
+		var err error
+		kh := must(handleFor(h.keys, false))
+		if pan := hlib.Recover(func() { _, err = jwt.JWKSetFromPublicKeysetHandle(kh) }); pan != "" || err == nil {
+			h.violate("JWK export of a MAC keyset: panic=%q err=%v", pan, err)
+		}
+		h.o.Count("jwk/mac-export-refused")
+		return
+	}
+	h.jwkPhase(reals, crafted[:3])
+}
 
 func main() {
-	o := hlib.Open("c09")
+	o := hlib.Open("C09")
 	defer o.Close()
-	o.Emit("J reset", "ok", true)
-	o.Emit("J split 61612e62622e6363", "ok 5 2", true)
+	seed := *hlib.FlagSeed
+	if strings.HasPrefix(*hlib.FlagMode, "prof=") { // developer aid: CPU profile of the harness itself
+		f, err := os.Create(strings.TrimPrefix(*hlib.FlagMode, "prof="))
+		if err == nil {
+			pprof.StartCPUProfile(f)
+			defer pprof.StopCPUProfile()
+		}
+	}
+	rand.Reader = &tape{rng: hlib.NewRng(seed, "c09-tape")}
+	mon := &monClient{}
+	if err := internalregistry.RegisterMonitoringClient(mon); err != nil {
+		panic(err)
+	}
+	rng := hlib.NewRng(seed, "c09")
+	h := &H{o: o, rng: rng, mon: mon, pool: newPool(hlib.NewRng(seed, "c09-keys"), 2)}
+	n := hlib.N(520, 10400)
+	for c := 0; c < n; c++ {
+		h.runCase()
+	}
 }
